@@ -45,6 +45,18 @@ def fail(kind, fn, detail, **extra):
     return Mismatch(kind, detail, dict(extra, op=fn))
 
 
+class El:
+    """an element that is nothing but itself: no ordering, no hash, no value equality (like a dict or an array)"""
+    __slots__ = ("label",)
+    __hash__ = None
+
+    def __init__(self, label):
+        self.label = label
+
+    def __repr__(self):
+        return "El(%r)" % self.label
+
+
 # ------------------------------------------------------------------------------------------------
 def check_sorted(vec, mode, key_name, yield_key):
     """mode: 'list' / 'tuple' -- the score vector is the element sequence; 'range' -- elements are range(n) and
@@ -56,6 +68,12 @@ def check_sorted(vec, mode, key_name, yield_key):
 
         def key(c):
             return base(tuple(vec[i] for i in c))
+    elif mode == "opaque":
+        # elements that can neither be ordered nor hashed (position as label); the key looks the scores up
+        elements = [El(i) for i in range(n)]
+
+        def key(c):
+            return base(tuple(vec[e.label if isinstance(e, El) else e] for e in c))
     else:
         elements = list(vec) if mode == "list" else tuple(vec)
         key = base
@@ -85,6 +103,12 @@ def check_sorted(vec, mode, key_name, yield_key):
                 raise fail("item-shape", "sorted_combinations", "yielded %r, expected a tuple" % (c,))
             if not c:
                 raise fail("empty-combination", "sorted_combinations", "yielded the empty combination")
+    if mode == "opaque":
+        for c in combs:
+            if not all(isinstance(e, El) for e in c):
+                raise fail("not-a-combination", "sorted_combinations", "combination %r does not consist of the given elements" % (c,))
+        combs = [tuple(e.label for e in c) for c in combs]
+        elements = range(n)
     exp = sorted(tuple(elements[i] for i in p) for p in pos)
     if sorted(combs) != exp:
         gs, es = sorted(combs), exp
@@ -100,7 +124,7 @@ def check_sorted(vec, mode, key_name, yield_key):
             kind = "not-a-combination"
         raise fail(kind, "sorted_combinations", "missing %r, not expected %r (as multisets; %d yielded, %d expected)" % (
             missing[:4], extra[:4], len(gs), len(es)))
-    if mode == "range":
+    if mode in ("range", "opaque"):
         for c in combs:
             if any(a >= b for a, b in zip(c, c[1:])):
                 raise fail("not-index-ordered", "sorted_combinations", "combination %r is not in index order" % (c,))
@@ -127,7 +151,11 @@ def multiset_minus(a, b):
 
 def sorted_snippet(vec, mode, key_name, yield_key):
     keysrc = {"sum": "sum(%s)", "max": "max(%s)", "len": "len(%s)", "sum_len": "(sum(%s), len(%s))"}[key_name]
-    if mode == "range":
+    if mode == "opaque":
+        inner = "[scores[e['i']] for e in c]"
+        el = "[{'i': i} for i in range(%d)]" % len(vec)
+        pre = "scores = %r\n" % (list(vec),)
+    elif mode == "range":
         inner = "[scores[i] for i in c]"
         el = "range(%d)" % len(vec)
         pre = "scores = %r\n" % (list(vec),)
@@ -141,13 +169,13 @@ def sorted_snippet(vec, mode, key_name, yield_key):
 
 
 # ------------------------------------------------------------------------------------------------
-def check_intervals(vec, rep, seen, st):
+def check_intervals(vec, rep, seen, st, opaque=False):
     n = len(vec)
-    elements = list(LABELS[:n])
+    elements = [El(x) for x in LABELS[:n]] if opaque else list(LABELS[:n])
     scores = list(vec)
     by_sum = {}
     for p in positions(n):
-        by_sum.setdefault(sum(vec[i] for i in p), []).append(tuple(elements[i] for i in p))
+        by_sum.setdefault(sum(vec[i] for i in p), []).append(tuple(LABELS[i] for i in p))
     sums = sorted(by_sum)
     total = sum(vec)
     budget = StepBudget(STEP_LIMIT)
@@ -176,7 +204,12 @@ def check_intervals(vec, rep, seen, st):
                     if not (isinstance(item, tuple) and len(item) == 2 and isinstance(item[0], (list, tuple))):
                         raise fail("result-shape", "min_combinations_in_interval_iter_sorted", "item %r, expected (combination, sum)" % (item,))
                     # the statement does not fix the order of elements inside a combination nor of the result list
-                    norm.append((tuple(sorted(item[0])), item[1]))
+                    comb = item[0]
+                    if opaque:
+                        if not all(isinstance(e, El) for e in comb):
+                            raise fail("result-shape", "min_combinations_in_interval_iter_sorted", "combination %r does not consist of the given elements" % (comb,))
+                        comb = [e.label for e in comb]
+                    norm.append((tuple(sorted(comb)), item[1]))
                 norm.sort()
                 if norm != exp:
                     if not exp:
@@ -191,7 +224,7 @@ def check_intervals(vec, rep, seen, st):
                         kind = "wrong-combinations"
                     raise fail(kind, "min_combinations_in_interval_iter_sorted", "returned %r, expected %r" % (got, exp))
             except Mismatch as m:
-                case = {"part": "interval", "scores": scores, "i_start": i_start, "i_end": i_end}
+                case = {"part": "interval", "scores": scores, "i_start": i_start, "i_end": i_end, "opaque_elements": opaque}
                 violate(rep, seen, m, case, 100 * n + total + (i_end - i_start),
                         lambda: "from windpyutils.generic import min_combinations_in_interval_iter_sorted\n"
                                 "print(min_combinations_in_interval_iter_sorted(%r, %r, %d, %d))" % (elements, scores, i_start, i_end))
@@ -224,6 +257,8 @@ def worker(task):
         vec = tuple(head) + tail
         st["vectors"] += 1
         ties_any = False
+        # (no unorderable elements here: sorted_combinations breaks ties between equal keys and lengths by comparing
+        # the combinations themselves, so orderable elements are part of its contract)
         for mode in ("list", "tuple", "range"):
             for key_name in KEYS:
                 for yield_key in (False, True):
@@ -240,6 +275,9 @@ def worker(task):
         if ties_any:
             st["tie_vectors"] += 1
         check_intervals(vec, rep, seen, st)
+        if len(set(vec)) < len(vec):
+            # tied scores: the same intervals over elements that cannot be ordered or hashed
+            check_intervals(vec, rep, seen, st, opaque=True)
         if (st["vectors"] % 61 == 30 or st["vectors"] == 2) and n >= 2:
             rep.sample({"scores": list(vec), "keys": list(KEYS), "elements": ["list", "tuple", "range(n)+lookup"],
                         "intervals": "all 0<=i_start<=i_end<=%d" % (sum(vec) + 1)})
@@ -307,7 +345,7 @@ def replay(rec):
             check_sorted(tuple(case["vector"]), case["elements"], case["key"], case["yield_key"])
         else:
             # all intervals of that vector are re-run; the recorded one is among them
-            check_intervals(tuple(case["scores"]), rep, seen, {"intervals": 0, "nontrivial": 0})
+            check_intervals(tuple(case["scores"]), rep, seen, {"intervals": 0, "nontrivial": 0}, opaque=case.get("opaque_elements", False))
             if seen:
                 m = next(iter(seen.values()))
                 print("--- reproduced: %s" % m[2][0])
